@@ -568,8 +568,12 @@ class HttpParser(abc.ABC, Generic[_MsgT]):
 
                     payload_state = PayloadState.PAYLOAD_COMPLETE
                     data = b""
-                    if isinstance(
-                        underlying_exc, (InvalidHeader, TransferEncodingError)
+                    # A framing error leaves no way to tell where the next
+                    # message starts: fail the connection instead of parsing the
+                    # bytes that follow as a new message. Only content-coding
+                    # (decompression) errors are local to the payload.
+                    if isinstance(underlying_exc, BadHttpMessage) and not isinstance(
+                        underlying_exc, ContentEncodingError
                     ):
                         raise
 
